@@ -55,7 +55,8 @@ def syntax_class(op, impl):
     if body == b"" and not f["req_mant"] and not f["req_int"] and it[0] == "ok":
         return "no-digits-accepted-as-zero"
     # 2. base-prefix handling swallows a leading zero (float and integer parsers)
-    if f["prefix"] != 0 and body[:1] == b"0" and not sep_in_input:
+    # (since /repo abaf3b2 only the integer algorithm with prefix AND suffix is affected, and only as a rejection)
+    if k == "pi" and f["prefix"] != 0 and f["suffix"] != 0 and it[0] == "err" and body[:1] == b"0" and not sep_in_input:
         nxt = body[1:2]
         is_prefix = nxt != b"" and nxt.lower() == bytes([f["prefix"]]).lower()
         if not is_prefix:
